@@ -281,8 +281,11 @@ def _check_gate(run: Run, ctx, m) -> None:
         run.check(not extra, "C13.R3", vc, r, "the refusal has no further precondition", f"the refusal also requires {', '.join(ast.unparse(x) for x in extra)[:120]}: some non-transportable constants (e.g. falsy ones) pass the gate", "if not isinstance(node.value, g_legal_capture_types): raise ValueError")
     # the raise must be reached for every visited Constant not satisfying isinstance: no early return before it
     for n in own_nodes(vc):
-        if isinstance(n, ast.Return) and raises and n.lineno < raises[0].lineno:
-            run.fail("C13.R3", vc, n, "an early return precedes the gate's test")
+        if isinstance(n, ast.Return) and raises and fa.cfg.has_node(n):
+            # a return is fine where the value is known to be of a legal type (the branches may be written either way round)
+            legal_known = any(pol and isinstance(a, ast.Call) and isinstance(a.func, ast.Name) and a.func.id == "isinstance" and len(a.args) == 2 and isinstance(a.args[1], ast.Name) and a.args[1].id == "g_legal_capture_types" and strip_sites(fa.term_of(a.args[0])) == ("attr", nodep, "value") for a, pol in Facts(fa, n).atoms)
+            if not legal_known and n.lineno < raises[0].lineno:
+                run.fail("C13.R3", vc, n, "an early return precedes the gate's test")
     # the legal table
     mod = m.module("func_adl.util_ast")
     tbl = m.find_assign("g_legal_capture_types", mod.name)
